@@ -13,7 +13,7 @@ def ensure_sources(tier):
     tag = tier[0]
     d = os.path.join(HARNESS, "src", "bin")
     if not os.path.exists(os.path.join(d, "sched_%s00.rs" % tag)):
-        sh(["python3", "tools/gen_sched.py", tier, "src/bin"], cwd=HARNESS)
+        sh(["python3", "tools/gen_sched.py", tier, "src"], cwd=HARNESS)
 
 def headers(trace):
     """line number -> header dict for every run of a schedule trace, plus simple statistics."""
